@@ -201,9 +201,14 @@ class Extractor:
                                      before=sf.text[t.start:toks[close].end], after="pub"))
                 i = close + 1
                 continue
-            if (t.kind == "ident" and t.text in TRACE_MACROS and i + 2 <= t_hi and toks[i + 1].text == "!"
-                    and toks[i + 2].text == "(" and (i == 0 or toks[i - 1].text in (";", "{", "}", "=>"))):
-                close = brk[i + 2]
+            # `trace!(..)` or the fully qualified `tracing::trace!(..)` / `log::trace!(..)` as a statement
+            q = 0
+            if (t.kind == "ident" and t.text in ("tracing", "log") and i + 4 <= t_hi and toks[i + 1].text == "::"
+                    and toks[i + 2].kind == "ident" and toks[i + 2].text in TRACE_MACROS):
+                q = 2
+            if (toks[i + q].kind == "ident" and toks[i + q].text in TRACE_MACROS and i + q + 2 <= t_hi and toks[i + q + 1].text == "!"
+                    and toks[i + q + 2].text == "(" and (i == 0 or toks[i - 1].text in (";", "{", "}", "=>"))):
+                close = brk[i + q + 2]
                 end = close
                 if close + 1 <= t_hi and toks[close + 1].text == ";":
                     end = close + 1
